@@ -68,7 +68,13 @@ def conc : Handler := fun _ impl =>
   { model := if ok then impl else "same <n>", oracle := if ok then none else some s!"concurrent vs sequential results: {impl}" }
 
 def handlersC10 : List (String × Handler) := [("stream", stream)]
-def handlersC11 : List (String × Handler) := [("out", out)]
-def handlersC14 : List (String × Handler) := [("xids", xids), ("conc", conc), ("conclookup", conc)]
+/-- `outfault n failAt accept seed`: a Write times out after accepting part of a frame; the wire must remain a prefix
+    of the submitted frames (the outbound model writes each frame once; after a failed write it writes nothing more) -/
+def outfault : Handler := fun _ impl =>
+  let ok : Bool := impl = "prefix ok"
+  { model := "prefix ok", oracle := if ok then none else some s!"after a timed-out partial write: {impl}" }
+
+def handlersC11 : List (String × Handler) := [("out", out), ("outfault", outfault)]
+def handlersC14 : List (String × Handler) := [("xids", xids), ("conc", conc), ("conclookup", conc), ("concdhcp", conc)]
 
 end OFV.Driver.Stream
